@@ -140,6 +140,16 @@ Proof.
   - intros p rows H. now apply choice_residual.
 Qed.
 
+(* ONE weight row given as a 2-d matrix is broadcast to every simulant: the same as 1-d weights; and p=None is the
+   uniform row of ones *)
+Theorem C05_choice_one_row_broadcast : forall D U draws c row, draws <> [] ->
+  choice D U draws c (W2 [row]) = choice D U draws c (W1 row).
+Proof. exact choice_one_row. Qed.
+
+Theorem C05_choice_none_is_uniform : forall D U draws c,
+  choice D U draws c WNone = choice D U draws c (W1 (repeat (Wt 1) c)).
+Proof. reflexivity. Qed.
+
 (* a zero-weight option is never picked - under the guard that excludes finding F-G exactly *)
 Theorem C05_choice_nonzero : forall D d ws, 0 <= D -> 0 <= d <= D -> nonneg ws -> 0 < sumZ ws ->
   (0 < d \/ 0 < nth 0 ws 0) -> nth (choice_row D d ws) ws 0 <> 0.
@@ -301,6 +311,8 @@ Print Assumptions C05_choice_local.
 Print Assumptions C05_choice_in_range.
 Print Assumptions C05_choice_scale.
 Print Assumptions C05_choice_residual.
+Print Assumptions C05_choice_one_row_broadcast.
+Print Assumptions C05_choice_none_is_uniform.
 Print Assumptions C05_choice_nonzero.
 Print Assumptions C05_choice_nonzero_all.
 Print Assumptions C05_choice_zero_draw_picks_first.
